@@ -173,6 +173,39 @@ var advTemplates = []advTemplate{
 	}},
 }
 
+// Exit-path templates are not wrapped in a loop: the body ends (normally or by
+// error) and the never-ending work sits on the way out of the context -
+// finalizers and __close handlers run by CallContext and by a dying coroutine.
+var exitTemplates = []advTemplate{
+	{"exit:gc-spin-after-error", func(g *core.Tape) string {
+		return `setmetatable({}, {__gc = function() emit("gc-ran") while true do end end}) error("x")`
+	}},
+	{"exit:gc-spin-after-return", func(g *core.Tape) string {
+		return `setmetatable({}, {__gc = function() emit("gc-ran") while true do end end}) return 1`
+	}},
+	{"exit:gc-rep-after-error", func(g *core.Tape) string {
+		return `setmetatable({}, {__gc = function() local s = "x" while true do s = s .. s end end}) error("x")`
+	}},
+	{"exit:close-spin-after-error", func(g *core.Tape) string {
+		return `local x <close> = setmetatable({}, {__close = function() while true do end end}) error("x")`
+	}},
+	{"exit:close-spin-after-return", func(g *core.Tape) string {
+		return `local x <close> = setmetatable({}, {__close = function() while true do end end}) return 1`
+	}},
+	{"exit:coroutine-death-close-spin", func(g *core.Tape) string {
+		return `local co = coroutine.wrap(function() local x <close> = setmetatable({}, {__close = function() while true do end end}) error("die") end) co()`
+	}},
+	{"exit:coroutine-death-close-spin-resume", func(g *core.Tape) string {
+		return `local co = coroutine.create(function() local x <close> = setmetatable({}, {__close = function() while true do end end}) error("die") end) coroutine.resume(co) while true do end`
+	}},
+	{"exit:coroutine-close-spin", func(g *core.Tape) string {
+		return `local co = coroutine.create(function() local x <close> = setmetatable({}, {__close = function() while true do end end}) coroutine.yield() end) coroutine.resume(co) coroutine.close(co) while true do end`
+	}},
+	{"exit:xpcall-handler-spin-error", func(g *core.Tape) string {
+		return `xpcall(error, function() while true do end end) while true do end`
+	}},
+}
+
 func runQuotaAdv(ctx *core.RunCtx) {
 	g := ctx.Gen
 	prop := "C05"
@@ -181,10 +214,16 @@ func runQuotaAdv(ctx *core.RunCtx) {
 	}
 	ti := g.Choose(len(advTemplates))
 	tpl := advTemplates[ti]
-	body := tpl.body(g)
 	wrap := g.Choose(3)
+	if g.Chance(1, 6) {
+		tpl = exitTemplates[g.Choose(len(exitTemplates))]
+		wrap = 3
+	}
+	body := tpl.body(g)
 	var src string
 	switch wrap {
+	case 3:
+		src = body + "\n"
 	case 0:
 		src = "while true do pcall(function() " + body + " end) end\n"
 	case 1:
@@ -250,7 +289,7 @@ func runQuotaAdv(ctx *core.RunCtx) {
 		ctx.Fail(prop, prop+".K6", "slow:"+sig, "took %v of wall time under cpu limit %d; %s", wall, cpuL, where)
 		return
 	}
-	maxAlloc := 64*memL + 256<<20
+	maxAlloc := 16*memL + 96<<20
 	if alloc > maxAlloc {
 		ctx.Fail(prop, prop+".M3", "heap:"+sig, "allocated %d bytes of Go heap under memory limit %d (bound %d); %s", alloc, memL, maxAlloc, where)
 		return
